@@ -9,7 +9,7 @@ Exit 0: property held on everything explored.  Exit 1 + `VIOLATION property=<id>
 a solver counterexample reproduced on the real build.  Exit 2: the check itself could not
 conclude (broken harness, encoding mismatch, timeout) - never reported as success.
 """
-import argparse, concurrent.futures as cf, hashlib, json, os, random, re, shutil, subprocess, sys, time
+import argparse, concurrent.futures as cf, hashlib, json, os, random, re, shutil, subprocess, sys, threading, time
 
 VERIF = os.path.dirname(os.path.abspath(__file__))
 REPO = os.environ.get("VERIF_REPO", "/repo")
@@ -69,6 +69,12 @@ class Build:
             src = re.sub(r"#cmakedefine (\w+) .*", r"/* #undef \1 */", src)
             open(cfg, "w").write(src)
         self.log = []
+        self._locks = {}
+        self._glock = threading.Lock()
+
+    def _lock(self, key):
+        with self._glock:
+            return self._locks.setdefault(key, threading.Lock())
 
     def _gc(self):
         base = os.path.join(WORK, "cache")
@@ -90,6 +96,10 @@ class Build:
         d = os.path.join(self.root, mode + "-" + self.fw_h)
         os.makedirs(d, exist_ok=True)
         ar = os.path.join(d, "libcrab_%s.a" % mode)
+        with self._lock(ar):
+            return self._lib(mode, d, ar)
+
+    def _lib(self, mode, d, ar):
         if os.path.exists(ar):
             return ar
         units = sorted(f for f in os.listdir(os.path.join(REPO, "lib")) if f.endswith(".cpp"))
@@ -119,6 +129,10 @@ class Build:
         d = os.path.join(self.root, mode + "-" + self.fw_h)
         os.makedirs(d, exist_ok=True)
         exe = os.path.join(d, "%s-%s" % (name, key))
+        with self._lock(exe):
+            return self._harness(name, mode, defines, src, exe)
+
+    def _harness(self, name, mode, defines, src, exe):
         if os.path.exists(exe):
             return exe
         lib = self.lib(mode)
